@@ -761,4 +761,11 @@ def set_attr(I, v, name):
             if not I.truth(I.any_equal(v.items, a[0])):
                 v.items.append(a[0])
         return Builtin('set.add', f)
+    if name == 'intersection':
+        def g(I, a, k):
+            if len(a) != 1:
+                raise Unsupported('set.intersection with %d arguments' % len(a))
+            other = list(I.iterate(a[0]))
+            return SetVal([x for x in v.items if I.truth(I.any_equal(other, x))])      # membership of each element decided by branching
+        return Builtin('set.intersection', g)
     raise Unsupported('set.%s' % name)
